@@ -22,6 +22,7 @@ func reuseT[T any](c payloadCodec[T], a *msgArgs, ext1, data1 []byte, same bool)
 	ks := keysOf(a.fields)
 	type msgI interface {
 		UnmarshalCBOR([]byte) error
+		MarshalCBOR() ([]byte, error)
 	}
 	var step func(ext []byte) (string, error)
 	var m msgI
@@ -134,7 +135,12 @@ func reuseT[T any](c payloadCodec[T], a *msgArgs, ext1, data1 []byte, same bool)
 			return errClass(err)
 		}
 	}
+	// a use (successful or refused) leaves the decoded message as it was: it re-encodes to the same octets before and after
+	before, berr := m.MarshalCBOR()
 	out, err := step(a.ext)
+	if after, aerr := m.MarshalCBOR(); berr == nil && (aerr != nil || string(after) != string(before)) {
+		return "USE-CHANGED-THE-MESSAGE " + hx(before) + " -> " + hx(after)
+	}
 	if err != nil {
 		return errClass(err)
 	}
@@ -208,6 +214,8 @@ func execReuse(a []string) string {
 		return reuseT(rawMsgCodec, args, unhxOpt(h[2]), data1, same)
 	case "typed", "gomap":
 		return reuseT(typedCodec, args, unhxOpt(h[2]), data1, same)
+	case "named":
+		return reuseT(namedCodec, args, unhxOpt(h[2]), data1, same)
 	}
 	return "bad-op"
 }
